@@ -11,14 +11,26 @@ SRC = '''#include "h1.h"
 int {fn}(int x) {{ return x * A + B + {k}; }}
 '''
 
+# deviations of the unchanged tree that have their own kinds (known findings F-C01-d, F-C01-e); they must not crowd out other failures
+KNOWN_DEVIATIONS = ('output_mode_masked_by_server_umask', 'clangxx_c_input_warning_dropped')
+
 class World:
     def __init__(self, root, tag, compiler, rng, sc_env=None, direct_mode=True):
         self.root = root; self.rng = rng
         shutil.rmtree(root, ignore_errors=True); os.makedirs(root)
         self.w = os.path.join(root, 'w'); os.makedirs(self.w); os.makedirs(os.path.join(self.w, 'inc2')); os.makedirs(os.path.join(self.w, 'inc1')); os.makedirs(os.path.join(self.w, 'o1')); os.makedirs(os.path.join(self.w, 'o2'))
         self.log = os.path.join(root, 'cc.log')
-        self.cc = os.path.join(root, 'bin', os.path.basename(compiler)); os.makedirs(os.path.dirname(self.cc))
-        wrapper(self.cc, compiler, self.log)
+        # one multicall wrapper script reached through two driver names (gcc / g++, clang / clang++), as the real drivers are
+        # symbolic links to one binary: it logs real compilations and execs the real driver of the name it was called by
+        base = os.path.basename(compiler); alt = {'gcc': 'g++', 'clang': 'clang++'}.get(base, base)
+        bindir = os.path.join(root, 'bin'); os.makedirs(bindir)
+        multi = os.path.join(bindir, 'multicall-driver')
+        with open(multi, 'w') as f:
+            f.write('#!/bin/sh\ncase " $* " in *" -E "*|*" -v "*|*" --version "*|*" -vV "*|*" -dumpversion "*) ;; *) echo "$$ $*" >> %s ;; esac\nexec %s/$(basename "$0") "$@"\n' % (self.log, os.path.dirname(compiler)))
+        os.chmod(multi, 0o755)
+        self.cc = os.path.join(bindir, base); self.cc_alt = os.path.join(bindir, alt)
+        for p_ in {self.cc, self.cc_alt}: os.symlink('multicall-driver', p_)
+        self.cur = self.cc
         env = {'SCCACHE_DIRECT': 'true' if direct_mode else 'false'}
         if sc_env: env.update(sc_env)
         self.sc = Sc(os.path.join(root, 'sc'), tag, env=env)
@@ -34,11 +46,11 @@ class World:
         with open(p, 'w') as f: f.write(text)
         self.files[rel] = text
     def argv(self):
-        a = [self.cc] + self.flags + (['-x', self.lang] if self.lang else []) + ['-c', 'main.c', '-o', self.out]
+        a = [self.cur] + self.flags + (['-x', self.lang] if self.lang else []) + ['-c', 'main.c', '-o', self.out]
         return a
     def fingerprint(self):
         inc2 = '-Iinc2' in self.flags
-        return json.dumps([self.flags, self.lang, self.files['main.c'], self.files['h1.h'], self.files['inc2/h2.h'] if inc2 else self.files['inc1/h2.h'],
+        return json.dumps([os.path.basename(self.cur), self.flags, self.lang, self.files['main.c'], self.files['h1.h'], self.files['inc2/h2.h'] if inc2 else self.files['inc1/h2.h'],
                            self.env.get('SCCACHE_C_CUSTOM_CACHE_BUSTER'), self.out if '-gsplit-dwarf' in self.flags else None])
     def request(self, note, expect_cacheable=True, evicted=False):
         argv = self.argv(); out = os.path.join(self.w, self.out)
@@ -84,11 +96,17 @@ class World:
         self.trace.append(line)
         if got != want:
             what = [n for n, a, b in zip(('exit status', 'stdout', 'stderr', 'output file', '.dwo file'), got, want) if a != b]
-            only_mode = what == ['output file'] and got[3] and want[3] and got[3][0] == want[3][0]
-            if only_mode and got[3][1] == want[3][1] & ~0o027:
-                # bytes equal, permission bits = direct ones masked by the daemonized server's umask 027 (finding F-C01-d)
+            # two deviations of the unchanged tree are told apart from everything else and reported under their own kinds (known findings):
+            #   F-C01-d  bytes equal, permission bits = the direct ones masked by the daemonized server's umask 027
+            #   F-C01-e  clang++ given a .c file: sccache passes `-x c++` itself, so the driver's "treating 'c' input as 'c++'" warning is not reproduced
+            if 'output file' in what and got[3] and want[3] and got[3][0] == want[3][0] and got[3][1] == want[3][1] & ~0o027:
                 self.fails.append({'kind': 'output_mode_masked_by_server_umask', 'detail': f'mode {got[3][1]:o} instead of {want[3][1]:o} ({cls})', 'ops': list(self.trace)})
-            else:
+                what.remove('output file')
+            warn = b"treating 'c' input as 'c++' when in C++ mode"
+            if 'stderr' in what and warn in want[2] and warn not in got[2] and b'\n'.join(l for l in want[2].split(b'\n') if warn not in l) == got[2]:
+                self.fails.append({'kind': 'clangxx_c_input_warning_dropped', 'detail': f'the direct compile prints the driver warning "treating \'c\' input as \'c++\'", the wrapped one does not ({cls})', 'ops': list(self.trace)})
+                what.remove('stderr')
+            if what:
                 short = lambda t: (t[3] and (t[3][0][:8], oct(t[3][1])), t[4] and t[4][:8])
                 self.fails.append({'kind': 'differs_from_direct', 'detail': f'{"/".join(what)} differ from the direct compile after [{note}] ({cls})', 'ops': list(self.trace) + [f'wrapped: rc={got[0]} object/.dwo {short(got)}; direct: rc={want[0]} object/.dwo {short(want)}; leftover outputs kept: {sorted(os.path.basename(k) for k in saved)}']})
         if expect_cacheable and want[0] == 0:
@@ -110,7 +128,8 @@ class World:
 
 def mutate(w, rng):
     """one random edit of the world; returns a note"""
-    k = rng.randrange(20)
+    k = rng.randrange(22)
+    if k >= 20: w.cur = w.cc_alt if w.cur == w.cc else w.cc; return 'switch driver name (%s)' % os.path.basename(w.cur)
     if k >= 18: w.recache_next = True; return 'no change, forced re-store (SCCACHE_RECACHE)'
     if k == 0: w.write('main.c', SRC.format(fn='f', k=rng.randrange(1, 9))); return 'edit source (same size)'
     if k == 1: w.write('main.c', SRC.format(fn='f', k=rng.randrange(10, 999)) + '/* pad */\n' * rng.randrange(3)); return 'edit source (size change)'
@@ -142,7 +161,7 @@ def run_histories(root, tag, compiler, seed, n_hist, n_req, direct_mode=True, sc
                 note = mutate(w, rng)
                 w.request(note)
             reqs += n_req; hits += w.hits; misses += w.misses
-            fails += [f for f in w.fails if f['kind'] != 'output_mode_masked_by_server_umask'][:2] + [f for f in w.fails if f['kind'] == 'output_mode_masked_by_server_umask'][:1]
+            fails += [f for f in w.fails if f['kind'] not in KNOWN_DEVIATIONS][:2] + [f for f in w.fails if f['kind'] == 'output_mode_masked_by_server_umask'][:1] + [f for f in w.fails if f['kind'] == 'clangxx_c_input_warning_dropped'][:1]
             if len(samples) < 2: samples.append(' ; '.join(w.trace[:6]))
         finally:
             w.sc.stop()
@@ -189,7 +208,7 @@ def run_fault_histories(root, tag, compiler, seed, n_hist, n_req, sc_env=None):
                 # once the cache directory itself is gone, stores keep failing for this server: only correctness is expected
                 w.request(note, evicted=('SCCACHE_CACHE_SIZE' in env) or getattr(w, 'nohit', False))
             reqs += n_req + 2
-            fails += [f for f in w.fails if f['kind'] != 'output_mode_masked_by_server_umask'][:2]
+            fails += [f for f in w.fails if f['kind'] not in KNOWN_DEVIATIONS][:2]
             if len(samples) < 2: samples.append(' ; '.join(w.trace[-6:]))
         finally:
             w.sc.stop(); shutil.rmtree(w.root, ignore_errors=True)
@@ -256,7 +275,7 @@ def run_readonly(root, tag, compiler, seed, n_hist, n_req, oversize=False, damag
             if added or removed or changed:
                 fails.append({'kind': 'readonly_cache_modified' + ('_oversize' if oversize else '') + ('_file_mode_with_env_dir' if conf == 'file_env_dir' else ''), 'detail': f'added={added[:3]} removed={removed[:3]} changed={changed[:3]} (entries before {len(before)}, after {len(after)})', 'ops': list(w.trace)})
             reqs += n_req; hits += w.hits - h0
-            fails += [f for f in w.fails if f['kind'] != 'output_mode_masked_by_server_umask'][:2]
+            fails += [f for f in w.fails if f['kind'] not in KNOWN_DEVIATIONS][:2]
             if len(samples) < 2: samples.append(' ; '.join(w.trace[-5:]))
         finally:
             w.sc.stop(); shutil.rmtree(w.root, ignore_errors=True)
@@ -465,7 +484,7 @@ def run_corpus(root, tag, compiler, direct_mode=True):
             for note, actions in script:
                 for a in actions: a(w)
                 w.request(note); reqs += 1
-            fails += [dict(f, detail=f'corpus history {name}: ' + f['detail']) for f in w.fails if f['kind'] != 'output_mode_masked_by_server_umask'][:2]
+            fails += [dict(f, detail=f'corpus history {name}: ' + f['detail']) for f in w.fails if f['kind'] not in KNOWN_DEVIATIONS][:2]
             samples.append(' ; '.join(w.trace[:3]))
         finally:
             w.sc.stop(); shutil.rmtree(w.root, ignore_errors=True)
